@@ -968,7 +968,14 @@ class Connection (EventMixin):
       if buf_len - offset < msg_length: break
 
       new_offset,msg = self.unpackers[ofp_type](self.buf, offset)
-      assert new_offset - offset == msg_length
+      if new_offset - offset != msg_length:
+        # (Not an assert: this is what keeps a message whose body does not
+        # fit the length it declares from being delivered -- built partly
+        # from its neighbour's bytes -- and the stream from losing step.)
+        log.warning("Bad OpenFlow message (type %i declares %i bytes, is %i) "
+                    "on connection %s"
+                    % (ofp_type, msg_length, new_offset - offset, self))
+        return False # Throw connection away
       offset = new_offset
 
       try:
